@@ -214,8 +214,7 @@ Lemma c02_camel_conv s : conv_variant s = true ->
   exists c r, c02_caps_norm s = c :: r /\ is_aupper c = true /\ to_camel_case s = Ok (alower c :: r).
 Proof.
   intros H. destruct (c02_caps_norm_head s H) as (c & r & E & Hc). exists c, r. repeat split; try assumption.
-  unfold to_camel_case. rewrite (c02_pascal_conv s H), E.
-  assert (c <? 128 = true) as -> by (unfold is_aupper in Hc; lia). reflexivity.
+  unfold to_camel_case. rewrite (c02_pascal_conv s H), E. reflexivity.
 Qed.
 
 (* mapM over the outcome monad producing lists of declarations *)
